@@ -280,8 +280,12 @@ class IMAPClientProxy:
                     if ls_imap_msg.endswith("idle"):
                         await self.push("+ idling\r\n")
                     elif ls_imap_msg != "done":
+                        # NOTE: What we got is shown via `repr()` so that it
+                        #       can not break up our response (it may contain
+                        #       CR, LF or a `{n}` string literal prefix.)
+                        #
                         await self.push(
-                            f"* NO Expected 'DONE' not: {imap_msg}\r\n"
+                            f"* NO Expected 'DONE' not: {imap_msg[:80]!r}\r\n"
                         )
                     else:
                         await self.cmd_processor.do_done()
